@@ -32,6 +32,27 @@ def _order(callable_: Any, keymap: Dict[str, str]) -> List[str]:
     return [inv.get(e["site"], e["site"]) for e in ex.events if e["k"] == "ENTER"]
 
 
+def _apply_conf(dag_: Any, conf: Dict[str, Any], via: str) -> None:
+    if via == "dict":
+        dag_.config_from_dict(conf)
+        return
+    import os
+    import tempfile
+
+    path = os.path.join(tempfile.gettempdir(), f"vlib_c07_{os.getpid()}.{via}")
+    with open(path, "w") as f:
+        if via == "json":
+            json.dump(conf, f)
+        else:
+            import yaml
+
+            yaml.safe_dump(conf, f, sort_keys=False)
+    try:
+        (dag_.config_from_json if via == "json" else dag_.config_from_yaml)(path)
+    finally:
+        os.remove(path)
+
+
 def evaluate(case: Dict[str, Any]) -> Dict[str, Any]:
     """Everything C07 observes about one case, as plain data."""
     import tawazi
@@ -53,10 +74,33 @@ def _evaluate(case: Dict[str, Any]) -> Dict[str, Any]:
     out["t0"] = _table(b.dag.graph_ids, ids)
     if case.get("order", True):
         out["order0"] = _order(lambda: b.dag(), keymap)
+    if case.get("sel_early") and case.get("sel") is not None:
+        # an executor for the same selection created (and dropped) BEFORE the reconfiguration
+        try:
+            b.dag.executor(**{name: [ids[s] for s in case["sel"][k]] for k, name in
+                              (("T", "target_nodes"), ("X", "exclude_nodes"), ("R", "root_nodes")) if case["sel"].get(k) is not None})
+        except ValueError:
+            pass
     if case.get("reconf") is not None:
-        conf = {"nodes": {s.lstrip(prog.MARK): {"priority": p} for s, p in case["reconf"].items()}}
+        conf: Dict[str, Any] = {"nodes": {s.lstrip(prog.MARK): {"priority": p} for s, p in case["reconf"].items()}}
+        bad = case.get("reconf_bad")
+        if bad is not None:
+            # one entry of the configuration is unusable (a priority that is not an int): the call is expected to raise.
+            # Whatever it did before raising, the table must afterwards follow the priorities the API shows
+            items = list(conf["nodes"].items())
+            items.insert(min(bad["pos"], len(items)), (bad["site"].lstrip(prog.MARK), {"priority": bad["value"]}))
+            conf["nodes"] = dict(items)
+        if "reconf_bad_mc" in case:
+            conf["max_concurrency"] = case["reconf_bad_mc"]
         via = case.get("reconf_via", "dict")
-        if via == "dict":
+        if bad is not None or "reconf_bad_mc" in case:
+            try:
+                _apply_conf(b.dag, conf, via)
+            except Exception as e:  # noqa: BLE001 - refusing is fine; what is left behind is judged
+                out["reconf_raised"] = type(e).__name__
+            out["prio_shown"] = {s: b.dag.get_node_by_id(nid).priority for s, nid in ids.items()}
+            b.dag.max_concurrency = 1
+        elif via == "dict":
             b.dag.config_from_dict(conf)
         else:
             # the configuration file of this process: one path, rewritten for every case (as a user edits a file)
